@@ -56,6 +56,199 @@ pub fn yield_point(name: &'static str) {
 /// guarded by `cfg(crux_verif)`), so every lock site - `lock`, `try_lock`, `read`, `write`, ... - is
 /// a schedule point whoever wrote it. Without a controller they behave exactly like the std types.
 pub mod sync {
+    /// `AtomicBool` / `AtomicUsize` with the std API whose every operation is a schedule point.
+    /// Verification builds use these in place of the std types, so the window between two atomic
+    /// operations - a load and a later store, two reads of one flag - is visible to the
+    /// controller whoever wrote it. Without a controller they behave exactly like the std types.
+    pub mod atomic {
+        use super::super::point;
+        pub use std::sync::atomic::{fence, Ordering};
+
+        #[derive(Debug, Default)]
+        pub struct AtomicBool(std::sync::atomic::AtomicBool);
+
+        impl AtomicBool {
+            pub const fn new(v: bool) -> Self {
+                Self(std::sync::atomic::AtomicBool::new(v))
+            }
+            pub fn get_mut(&mut self) -> &mut bool {
+                self.0.get_mut()
+            }
+            pub fn into_inner(self) -> bool {
+                self.0.into_inner()
+            }
+            pub fn load(&self, order: Ordering) -> bool {
+                point("atomic.load");
+                self.0.load(order)
+            }
+            pub fn store(&self, v: bool, order: Ordering) {
+                point("atomic.store");
+                self.0.store(v, order);
+            }
+            pub fn swap(&self, v: bool, order: Ordering) -> bool {
+                point("atomic.swap");
+                self.0.swap(v, order)
+            }
+            pub fn compare_exchange(
+                &self,
+                current: bool,
+                new: bool,
+                success: Ordering,
+                failure: Ordering,
+            ) -> Result<bool, bool> {
+                point("atomic.compare_exchange");
+                self.0.compare_exchange(current, new, success, failure)
+            }
+            pub fn compare_exchange_weak(
+                &self,
+                current: bool,
+                new: bool,
+                success: Ordering,
+                failure: Ordering,
+            ) -> Result<bool, bool> {
+                // never fails spuriously, so that a schedule replays identically
+                point("atomic.compare_exchange");
+                self.0.compare_exchange(current, new, success, failure)
+            }
+            pub fn fetch_and(&self, v: bool, order: Ordering) -> bool {
+                point("atomic.fetch_and");
+                self.0.fetch_and(v, order)
+            }
+            pub fn fetch_or(&self, v: bool, order: Ordering) -> bool {
+                point("atomic.fetch_or");
+                self.0.fetch_or(v, order)
+            }
+            pub fn fetch_xor(&self, v: bool, order: Ordering) -> bool {
+                point("atomic.fetch_xor");
+                self.0.fetch_xor(v, order)
+            }
+            pub fn fetch_update<F>(
+                &self,
+                set_order: Ordering,
+                fetch_order: Ordering,
+                mut f: F,
+            ) -> Result<bool, bool>
+            where
+                F: FnMut(bool) -> Option<bool>,
+            {
+                let mut prev = self.load(fetch_order);
+                while let Some(next) = f(prev) {
+                    match self.compare_exchange(prev, next, set_order, fetch_order) {
+                        x @ Ok(_) => return x,
+                        Err(now) => prev = now,
+                    }
+                }
+                Err(prev)
+            }
+        }
+
+        impl From<bool> for AtomicBool {
+            fn from(v: bool) -> Self {
+                Self::new(v)
+            }
+        }
+
+        #[derive(Debug, Default)]
+        pub struct AtomicUsize(std::sync::atomic::AtomicUsize);
+
+        impl AtomicUsize {
+            pub const fn new(v: usize) -> Self {
+                Self(std::sync::atomic::AtomicUsize::new(v))
+            }
+            pub fn get_mut(&mut self) -> &mut usize {
+                self.0.get_mut()
+            }
+            pub fn into_inner(self) -> usize {
+                self.0.into_inner()
+            }
+            pub fn load(&self, order: Ordering) -> usize {
+                point("atomic.load");
+                self.0.load(order)
+            }
+            pub fn store(&self, v: usize, order: Ordering) {
+                point("atomic.store");
+                self.0.store(v, order);
+            }
+            pub fn swap(&self, v: usize, order: Ordering) -> usize {
+                point("atomic.swap");
+                self.0.swap(v, order)
+            }
+            pub fn compare_exchange(
+                &self,
+                current: usize,
+                new: usize,
+                success: Ordering,
+                failure: Ordering,
+            ) -> Result<usize, usize> {
+                point("atomic.compare_exchange");
+                self.0.compare_exchange(current, new, success, failure)
+            }
+            pub fn compare_exchange_weak(
+                &self,
+                current: usize,
+                new: usize,
+                success: Ordering,
+                failure: Ordering,
+            ) -> Result<usize, usize> {
+                // never fails spuriously, so that a schedule replays identically
+                point("atomic.compare_exchange");
+                self.0.compare_exchange(current, new, success, failure)
+            }
+            pub fn fetch_add(&self, v: usize, order: Ordering) -> usize {
+                point("atomic.fetch_add");
+                self.0.fetch_add(v, order)
+            }
+            pub fn fetch_sub(&self, v: usize, order: Ordering) -> usize {
+                point("atomic.fetch_sub");
+                self.0.fetch_sub(v, order)
+            }
+            pub fn fetch_max(&self, v: usize, order: Ordering) -> usize {
+                point("atomic.fetch_max");
+                self.0.fetch_max(v, order)
+            }
+            pub fn fetch_min(&self, v: usize, order: Ordering) -> usize {
+                point("atomic.fetch_min");
+                self.0.fetch_min(v, order)
+            }
+            pub fn fetch_and(&self, v: usize, order: Ordering) -> usize {
+                point("atomic.fetch_and");
+                self.0.fetch_and(v, order)
+            }
+            pub fn fetch_or(&self, v: usize, order: Ordering) -> usize {
+                point("atomic.fetch_or");
+                self.0.fetch_or(v, order)
+            }
+            pub fn fetch_xor(&self, v: usize, order: Ordering) -> usize {
+                point("atomic.fetch_xor");
+                self.0.fetch_xor(v, order)
+            }
+            pub fn fetch_update<F>(
+                &self,
+                set_order: Ordering,
+                fetch_order: Ordering,
+                mut f: F,
+            ) -> Result<usize, usize>
+            where
+                F: FnMut(usize) -> Option<usize>,
+            {
+                let mut prev = self.load(fetch_order);
+                while let Some(next) = f(prev) {
+                    match self.compare_exchange(prev, next, set_order, fetch_order) {
+                        x @ Ok(_) => return x,
+                        Err(now) => prev = now,
+                    }
+                }
+                Err(prev)
+            }
+        }
+
+        impl From<usize> for AtomicUsize {
+            fn from(v: usize) -> Self {
+                Self::new(v)
+            }
+        }
+    }
+
     use super::{current, Controller};
     use std::mem::ManuallyDrop;
     use std::ops::{Deref, DerefMut};
